@@ -203,10 +203,16 @@ def run(ctx):
                 flow2[a.id] = nps_params[i]
     stores = {}
     conditional = set()
-    for n in walk_own(nps.node):
-        if isinstance(n, ast.Assign) and isinstance(n.targets[0], ast.Attribute) and dotted(n.targets[0].value) == "ph" \
+    npx = _desugar(nps.node)   # `ph.type, ph.orient = a, b` split into single stores
+    ph_names = {k for k, v in P_.value_aliases(npx).items() if isinstance(v, ast.Call) and isinstance(v.func, ast.Attribute)
+                and v.func.attr in ("get_or_add_ph", "_add_ph")}
+    if not ph_names:
+        ctx.error("CT_Shape.new_placeholder_sp", "the new p:ph element (get_or_add_ph()) is not recognised")
+    nps_body = list(npx.body)
+    for n in walk_own(npx):
+        if isinstance(n, ast.Assign) and isinstance(n.targets[0], ast.Attribute) and dotted(n.targets[0].value) in ph_names \
                 and isinstance(n.value, ast.Name):
-            if n in nps.node.body:
+            if n in nps_body:
                 stores[n.value.id] = n.targets[0].attr
             else:
                 conditional.add(n.targets[0].attr)
@@ -228,7 +234,14 @@ def run(ctx):
     sh = prog.cls("pptx.oxml.shapes.shared", "BaseShapeElement")
     for src, attr in want.items():
         r = sh.methods.get(src)
-        ok = r is not None and ("ph.%s" % attr) in ast.unparse(r.node)
+        ok = False
+        if r is not None:
+            from sa.idioms import returned_exprs
+
+            _rx, rets_ = returned_exprs(prog, r)
+            # the value returned is <p:ph element>.<attr>, the element being self.ph (directly or through a local / helper)
+            ok = bool(rets_) and all(isinstance(v_, ast.Attribute) and v_.attr == attr and ast.unparse(v_.value) in ("self.ph", "self._required_ph")
+                                     for v_ in rets_)
         if ok:
             ctx.ok("R13.2", "reader " + src, nontrivial=False)
         else:
@@ -247,8 +260,12 @@ def run(ctx):
     names = [x[1] for x in seq]
     if names == ["add_slide", "clone_layout_placeholders", "add_sldId"]:
         # the rId returned by part creation is the one registered
-        ok = isinstance(seq[2][2].args[0], ast.Name) and seq[2][2].args[0].id == "rId" and \
-            dotted(seq[1][2].args[0]) == a.params[1]
+        # the id registered is the one returned by the part-level add_slide (first component of its result)
+        aval = P_.value_aliases(a.node)
+        reg = seq[2][2].args[0] if seq[2][2].args else None
+        rid_src = P_.full(reg, aval) if reg is not None else ""
+        made = ast.unparse(seq[0][2])
+        ok = rid_src in (made + "[0]",) and dotted(seq[1][2].args[0]) == a.params[1]
         if ok:
             ctx.ok("R13.3", "Slides.add_slide", sample={"order": names})
         else:
